@@ -3,9 +3,11 @@
 # mutants/<ID>/neutral-*.patch must NOT be detected (exit 0).  Not a registered check; scratch copies live under $TMPDIR.
 id=$1; tier=${2:-quick}
 ok=0; bad=0
+export VERIF_FAST_FAIL=1     # only "exit 1 or not" matters here: stop at the first failing case (vf/core.py)
 for p in /verif/mutants/$id/*.patch; do
   [ -f "$p" ] || continue
   n=$(basename $p .patch)
+  if [ -n "$SR_LOCK" ]; then mkdir "$SR_LOCK/mut-$id-$n" 2>/dev/null || continue; fi
   out=$(/verif/tools/mut.sh $p $id --tier $tier 2>&1); rc=$?
   case $n in neutral-*) want=0;; *) want=1;; esac
   if [ $rc -eq $want ]; then ok=$((ok+1)); echo "ok   $id/$n rc=$rc $(echo "$out" | grep -m1 bucket= | cut -c1-150)";
